@@ -11,7 +11,7 @@ class P(StreamProperty):
     pid = 'C11'
     module = 'OpenFecVerif.Props.C11'
     theorems = ['C11_rs_events_exactly_missing', 'C11_rs_stored_per_policy', 'C11_dest_policy', 'C11_rs_never_for_received', 'C11_ldpc_finish_events', 'C11_ldpc_recv_events']
-    rule = ('decoder and encoder-and-decoder sessions with a registered callback returning a buffer / NULL / a mix (by ESI parity), all receive sets for n<=nmax, '
+    rule = ('decoder and encoder-and-decoder sessions with a callback returning a buffer / NULL / a mix (by ESI parity), registered after the parameters or (every other case) before them, all receive sets for n<=nmax, '
             'both APIs, with finish, loss patterns sampled per decoding stage for LDPC (IT only, ML); oracle on the real library: the multiset of '
             'callback ESIs over the session = source symbols available at the end whose table entry is not an application pointer, each exactly once '
             'with size = symbol length; stored in the returned buffer (tag cb) or a library buffer (tag lib) according to the policy; '
@@ -97,7 +97,7 @@ class P(StreamProperty):
                 api = 'stream' if i % 2 == 0 else 'table'
                 cb = ['buf', 'null', 'mix'][i % 3]
                 order = gens.random_order(rng, sub, 0.3) if i % 4 == 0 else sub
-                cases.append(gens.decoder_case('cb%d' % i, cfg, order, api=api, cb=cb, finish=True, role=3 if i % 5 == 4 else 2))
+                cases.append(gens.decoder_case('cb%d' % i, cfg, order, api=api, cb=cb, finish=True, role=3 if i % 5 == 4 else 2, cb_first=((i // 3) % 2 == 1)))
                 i += 1
         nbig = 100 if tier == 'quick' else 2000
         for j in range(nbig):
@@ -105,7 +105,7 @@ class P(StreamProperty):
             cfg = gens.Cfg('ldpc', k, r, N1=rng.choice([3, 4, 5]) if r >= 5 else 3, seed=rng.randint(1, 2 ** 31 - 2))
             sub = gens.ldpc_loss_subset(rng, cfg)
             cases.append(gens.decoder_case('big%d' % j, cfg, gens.random_order(rng, sub, 0.1), api=rng.choice(['stream', 'table']),
-                                           cb=rng.choice(['buf', 'null', 'mix']), finish=True, role=3 if j % 4 == 3 else 2))
+                                           cb=rng.choice(['buf', 'null', 'mix']), finish=True, role=3 if j % 4 == 3 else 2, cb_first=(j % 2 == 1)))
         return cases
 
     def extra_stats(self, cases, res):
